@@ -54,8 +54,11 @@ def _nested(p, q):
     return p[:k] == q[:k]
 
 
-def _build(forest, alias):
-    """alias: {q_path: p_path}; returns list of Nodes."""
+def _build(forest, alias, head=None):
+    """alias: {q_path: p_path}; returns list of Nodes.  ``head`` (a symbolic
+    string in the harness) is the text of the leading leaf of every
+    top-level tree, so that code that treats particular commands specially
+    is reached."""
     from ddsmt.nodes import Node
     built = {}
     counter = [0]
@@ -65,7 +68,10 @@ def _build(forest, alias):
             node = built[alias[path]]
         elif shape == 'L':
             counter[0] += 1
-            node = Node(f'l{counter[0]}')
+            if head is not None and len(path) == 2 and path[1] == 0:
+                node = Node(head)
+            else:
+                node = Node(f'l{counter[0]}')
         else:
             node = Node(*[rec(c, path + (i,)) for i, c in enumerate(shape)])
         built[path] = node
@@ -93,9 +99,9 @@ def _all(exprs):
     return out
 
 
-def _check(forest, alias):
+def _check(forest, alias, head=None):
     from ddsmt import nodes
-    exprs, built = _build(forest, alias)
+    exprs, built = _build(forest, alias, head)
     before_tokens = _tokens(exprs)
     before_nodes = _all(exprs)
     before_ids = [n.id for n in before_nodes]
@@ -139,8 +145,9 @@ def clean_first(b, cnt, seen):
 
 
 def make(forests):
-    def h(i: int, q1: int, p1: int, two: bool, q2: int, p2: int):
+    def h(i: int, q1: int, p1: int, two: bool, q2: int, p2: int, head: str):
         assume(0 <= i < len(forests))
+        assume(1 <= len(head) <= 20)
         forest = forests[i]
         pos = _positions(forest)
         alias = {}
@@ -155,7 +162,7 @@ def make(forests):
             alias[pos[q2]] = pos[p2]
         else:
             assume(q2 == 0 and p2 == 0)
-        r = _check(forest, alias)
+        r = _check(forest, alias, head)
         if r:
             raise Violation(r)
     return h
@@ -220,6 +227,6 @@ def replay(part, cex):
     if cex['two']:
         alias[pos[cex['q2']]] = pos[cex['p2']]
     try:
-        return _check(forest, alias)
+        return _check(forest, alias, cex.get('head'))
     except Exception as e:
         return f'{type(e).__name__}: {e}'
